@@ -156,3 +156,63 @@ pub fn run_dec2(w: &[&str]) -> String {
     let c = drain(Tokenizer::from(d2));
     format!("{} | {} | {}", a, b, c)
 }
+
+/// `tokcont <vec|deque|list|arr|tup|map|boxed> <tok>,<tok>,...`: `Token` as an ELEMENT type of the built-in containers — the trait
+/// impls `Encode for Token` / `Decode for Token` / `CborLen for Token` behind `Vec`, `VecDeque`, `LinkedList`, `[Token; N]`
+/// (N = 1..4), a tuple (N = 2, 3), `BTreeMap<u8, Token>` and `Box<Token>` (one token): `<hex> len=<minicbor::len> rt=<ok|diff:..|err:class> pos=<n>`.
+/// Equality is by `show` with integer tokens compared by numeric value (the decoder answers with the narrowest integer token).
+pub fn run_cont(w: &[&str]) -> String {
+    use std::collections::{BTreeMap, LinkedList, VecDeque};
+    if w.len() != 2 { return "bad-op".into() }
+    let owned: Option<Vec<OTok>> = if w[1] == "-" { Some(Vec::new()) } else { w[1].split(',').map(parse).collect() };
+    let owned = match owned { Some(o) => o, None => return "bad-op".into() };
+    let toks: Vec<Token<'_>> = owned.iter().map(OTok::borrow).collect();
+    fn norm(t: &Token<'_>) -> String {
+        match t {
+            Token::U8(x) => format!("n:{}", x), Token::U16(x) => format!("n:{}", x), Token::U32(x) => format!("n:{}", x), Token::U64(x) => format!("n:{}", x),
+            Token::I8(x) => format!("n:{}", x), Token::I16(x) => format!("n:{}", x), Token::I32(x) => format!("n:{}", x), Token::I64(x) => format!("n:{}", x),
+            Token::Int(x) => format!("n:{}", i128::from(*x)),
+            _ => show(t)
+        }
+    }
+    fn cmp(x: Vec<String>, y: Vec<String>) -> String {
+        if x == y { "ok".into() } else { format!("diff:{}", if y.is_empty() { "-".to_string() } else { y.join(",") }) }
+    }
+    macro_rules! go {
+        ($v:expr, $t:ty, $iter:expr) => {{
+            let v: $t = $v;
+            let n = minicbor::len(&v);
+            match minicbor::to_vec(&v) {
+                Err(x) => format!("err {} len={}", eclass(&x), n),
+                Ok(bytes) => {
+                    let mut d = Decoder::new(&bytes);
+                    let rt = match d.decode::<$t>() {
+                        Ok(back) => { let f = $iter; cmp(f(&v), f(&back)) }
+                        Err(e) => format!("err:{}", dclass(&e))
+                    };
+                    format!("{} len={} rt={} pos={}", hex(&bytes), n, rt, d.position())
+                }
+            }
+        }}
+    }
+    match (w[0], toks.len()) {
+        ("vec", _) => go!(toks.clone(), Vec<Token<'_>>, |c: &Vec<Token<'_>>| c.iter().map(norm).collect::<Vec<_>>()),
+        ("deque", _) => {
+            // built by pushes at both ends so that the ring buffer is not contiguous, then rotated into the order of the op text
+            let mut q: VecDeque<Token<'_>> = VecDeque::with_capacity(4);
+            for t in toks.iter().rev() { q.push_front(*t) }
+            go!(q, VecDeque<Token<'_>>, |c: &VecDeque<Token<'_>>| c.iter().map(norm).collect::<Vec<_>>())
+        }
+        ("list", _) => go!(toks.iter().cloned().collect(), LinkedList<Token<'_>>, |c: &LinkedList<Token<'_>>| c.iter().map(norm).collect::<Vec<_>>()),
+        ("arr", 1) => go!([toks[0]], [Token<'_>; 1], |c: &[Token<'_>; 1]| c.iter().map(norm).collect::<Vec<_>>()),
+        ("arr", 2) => go!([toks[0], toks[1]], [Token<'_>; 2], |c: &[Token<'_>; 2]| c.iter().map(norm).collect::<Vec<_>>()),
+        ("arr", 3) => go!([toks[0], toks[1], toks[2]], [Token<'_>; 3], |c: &[Token<'_>; 3]| c.iter().map(norm).collect::<Vec<_>>()),
+        ("arr", 4) => go!([toks[0], toks[1], toks[2], toks[3]], [Token<'_>; 4], |c: &[Token<'_>; 4]| c.iter().map(norm).collect::<Vec<_>>()),
+        ("tup", 2) => go!((toks[0], toks[1]), (Token<'_>, Token<'_>), |c: &(Token<'_>, Token<'_>)| vec![norm(&c.0), norm(&c.1)]),
+        ("tup", 3) => go!((toks[0], toks[1], toks[2]), (Token<'_>, Token<'_>, Token<'_>), |c: &(Token<'_>, Token<'_>, Token<'_>)| vec![norm(&c.0), norm(&c.1), norm(&c.2)]),
+        ("map", n) if n <= 200 => go!(toks.iter().cloned().enumerate().map(|(i, t)| (i as u8, t)).collect(), BTreeMap<u8, Token<'_>>,
+                                      |c: &BTreeMap<u8, Token<'_>>| c.iter().map(|(k, t)| format!("{}={}", k, norm(t))).collect::<Vec<_>>()),
+        ("boxed", 1) => go!(Box::new(toks[0]), Box<Token<'_>>, |c: &Box<Token<'_>>| vec![norm(c)]),
+        _ => "bad-op".into()
+    }
+}
